@@ -61,3 +61,28 @@ PROPS["C10"] = dict(
     trusted_base=["Model/Bezier.v follows line.rs / quadratic_bezier.rs / cubic_bezier.rs operation by operation over Q"],
     assumptions=["exact (rational) arithmetic in the theorems; f64 rounding only enters outside the exactness domain"],
 )
+
+PROPS["C12"] = dict(
+    level="proof",
+    level_text="Theorems (Props/C12.v) over the rationals: LineSegment::intersection_t as coded returns Some(t,u) exactly "
+               "when the two segments are non-parallel, share no endpoint and meet at a point, and then (t,u) are that "
+               "point's parameters (sound, complete, unique, symmetric); parallel/overlapping and endpoint-sharing "
+               "segments return None; same for segment x infinite line. Tied to the code by an EXHAUSTIVE comparison "
+               "on all ordered pairs of lattice segments (4x4 lattice quick, 5x5 thorough) + random lattices. "
+               "Curve queries (line x quadratic/cubic, cubic x cubic) are not modelled: every returned parameter is "
+               "checked to denote a common point and constructed transversal crossings must be reported "
+               "(validation, not proof).",
+    level_note="Trusted: Coq kernel; f64 division is correctly rounded (the run compares the implementation's t with the "
+               "model's rational within 2^-53 relative); curve-curve / curve-line soundness is validated per run only.",
+    technique="Coq proof (Cramer's rule over Q, lra/field) + exhaustive lattice correspondence via vm_compute",
+    coq_targets=["theories/Props/C12.vo", "theories/Run/C12.vo"],
+    props_file="theories/Props/C12.v",
+    props_module="Props.C12",
+    harness=[dict(sub="c12", profile="debug")],
+    rule="all ordered pairs of segments with integer endpoints in {0..3}^2 (quick, 65536 pairs) / {0..4}^2 (thorough), "
+         "then random segments in [-50,50]^2 with a collinear-endpoint bias; curve queries on random f64 curves with "
+         "constructed crossings; non-trivial = pair that crosses or is reported; distinct = distinct coordinates",
+    exhaustive_note="segment pairs on the stated lattice are enumerated completely",
+    trusted_base=["Model/LineInter.v follows LineSegment::intersection_t / line_intersection_t statement by statement"],
+    assumptions=["rational arithmetic in the theorems; on integer input every f64 intermediate before the final division is exact"],
+)
